@@ -296,6 +296,8 @@ def run_session(cicada, case, idx, timeout=60):
                 recs.append("I:%s:%s" % (tag, ",".join(hx(l) for l in hexlines(data) if not l.startswith("cicada:"))))
             elif kind == "S":
                 recs.append("S:%s:%s" % (tag, data))
+            elif kind == "in":
+                recs.append("D:%s:%s" % (tag, hx(data.strip())))
         for t, n in sorted(counts.items()):
             if n != 1:
                 recs.append("N:%s:%d" % (t, n))
@@ -353,6 +355,6 @@ def proj(prop, x):
             if k == "T:":
                 tag, tab = rec[2:].split(":", 1)
                 out.append("T:%s:%s" % (tag, ",".join(e for e in tab.split(",") if e and int(e.split("=")[0]) < 3)))
-            elif k in ("S:", "N:", "I:", "O:"):
+            elif k in ("S:", "N:", "I:", "O:", "D:"):
                 out.append(rec)
     return canon_pipes("|".join(out))
